@@ -45,6 +45,8 @@ TRUSTED_BASE = [
 ]
 
 logging.disable(logging.CRITICAL)
+import warnings  # noqa: E402
+warnings.filterwarnings("ignore", category=RuntimeWarning)      # numpy: mean of an empty selection (judged as NaN == NaN or skipped)
 MARGIN = Fraction(1, 10 ** 6)
 COLS = ["t", "isf", "Qt", "X4_Qt", "msd", "alpha2"]
 TOL = [1e-9, 1e-7, 1e-9, 1e-8, 1e-9, 1e-8]
@@ -327,6 +329,9 @@ def real_rows(c, coords=None):
         shutil.rmtree(tmp, ignore_errors=True)
 
 
+real_rows = common.with_history(real_rows)
+
+
 def traj_tokens(c, pos, nbs, coords=None):
     mode = coords or c["mode"]
     T, N, d = c["T"], c["N"], c["d"]
@@ -599,7 +604,12 @@ def correspond(run):
     n4 = 40 if run.tier == "quick" else 300
     corpus = common.load_corpus(PROP)
     ntie = 30 if run.tier == "quick" else 400
-    cases = [c for c in corpus if c.get("kind") != "sq4"] + [gen_case(run.rng) for _ in range(n)] \
+    def sibling(rng, c):
+        # same frames, timesteps, types, diameters, cell, options — every unwrapped position moved a little
+        if c.get("tie") or c.get("kind") == "sq4":
+            return None
+        return dict(c, xu=[common.jitter_positions(rng, fr, 0.05, 3) for fr in c["xu"]])
+    cases = [c for c in corpus if c.get("kind") != "sq4"] + common.add_siblings(run.rng, [gen_case(run.rng) for _ in range(n)], sibling, every=5) \
         + [gen_tie(run.rng) for _ in range(ntie)]
     cases4 = [c for c in corpus if c.get("kind") == "sq4"] + [gen_sq4(run.rng) for _ in range(n4)]
     dis, mon = judge(run, cases, "impl")
